@@ -38,7 +38,7 @@ theorem delete_frame (lb : LB) (mk : MK) (reg : RegName) (regs : Regs) (s e : Na
       = .ok ⟨(lb.gs.take s).flatten ++ (lb.gs.drop e).flatten,
              writeReg regs reg (if lw then .line ((lb.gs.drop s).take (e - s)).flatten else .span ((lb.gs.drop s).take (e - s)).flatten)⟩ := by
   unfold execVerbText getRegisterContent
-  cases mk <;> simp_all [MK.spanlike, OpK.drains, drainGs_ok lb.gs s e hs he, Except.map] <;> cases lw <;> simp
+  cases mk <;> simp_all [MK.spanlike, MK.isNull, VerbK.takesText, OpK.drains, drainGs_ok lb.gs s e hs he, Except.map, operatorRange, rangeFromMotion] <;> cases lw <;> simp
 
 /-- **Change** removes exactly its own span (for a linewise motion: the lines without the last terminator). -/
 theorem change_frame (lb : LB) (mk : MK) (reg : RegName) (regs : Regs) (s e : Nat) (lw : Bool)
@@ -47,7 +47,7 @@ theorem change_frame (lb : LB) (mk : MK) (reg : RegName) (regs : Regs) (s e : Na
       = .ok ⟨(lb.gs.take s).flatten ++ (lb.gs.drop e).flatten,
              writeReg regs reg (if lw then .line ((lb.gs.drop s).take (e - s)).flatten else .span ((lb.gs.drop s).take (e - s)).flatten)⟩ := by
   unfold execVerbText getRegisterContent
-  cases mk <;> simp_all [MK.spanlike, OpK.drains, drainGs_ok lb.gs s e hs he, Except.map] <;> cases lw <;> simp
+  cases mk <;> simp_all [MK.spanlike, MK.isNull, VerbK.takesText, OpK.drains, drainGs_ok lb.gs s e hs he, Except.map, operatorRange, rangeFromMotion] <;> cases lw <;> simp
 
 theorem sliceOr_ok (gs : List Gr) (s e : Nat) (hs : s ≤ e) (he : e ≤ gs.length) (hlt : s < gs.length) :
     sliceOr gs s e = ((gs.drop s).take (e - s)).flatten := by
@@ -60,16 +60,25 @@ theorem yank_frame (lb : LB) (mk : MK) (reg : RegName) (regs : Regs) (s e : Nat)
     execVerbText .yank mk reg lb regs
       = .ok ⟨lb.gs.flatten, writeReg regs reg (if lw then .line ((lb.gs.drop s).take (e - s)).flatten else .span ((lb.gs.drop s).take (e - s)).flatten)⟩ := by
   unfold execVerbText getRegisterContent
-  cases mk <;> simp_all [MK.spanlike, OpK.drains, sliceOr_ok lb.gs s e hs he hlt, Except.map] <;> cases lw <;> simp
+  cases mk <;> simp_all [MK.spanlike, MK.isNull, VerbK.takesText, OpK.drains, sliceOr_ok lb.gs s e hs he hlt, Except.map, operatorRange, rangeFromMotion] <;> cases lw <;> simp
 
 /-- A yank never changes the text, whatever the motion. -/
 theorem yank_keeps_text (lb : LB) (mk : MK) (reg : RegName) (regs : Regs) (out : VOut)
     (h : execVerbText .yank mk reg lb regs = .ok out) : out.text = lb.gs.flatten := by
   unfold execVerbText at h
   simp only at h
-  cases hg : getRegisterContent .yank lb mk with
-  | error e => simp [hg, Except.map] at h
-  | ok r => simp [hg, Except.map] at h; rw [← h]
+  split at h
+  · cases h; rfl
+  · cases hg : getRegisterContent .yank lb mk with
+    | error e => simp [hg, Except.map] at h
+    | ok r => simp [hg, Except.map] at h; rw [← h]
+
+/-- **A delete, change or yank whose motion failed changes neither the text nor any register.** -/
+theorem failed_motion_touches_nothing (lb : LB) (reg : RegName) (regs : Regs) :
+    execVerbText .delete .null reg lb regs = .ok ⟨lb.gs.flatten, regs⟩ ∧
+    execVerbText .change .null reg lb regs = .ok ⟨lb.gs.flatten, regs⟩ ∧
+    execVerbText .yank .null reg lb regs = .ok ⟨lb.gs.flatten, regs⟩ := by
+  simp [execVerbText, MK.isNull]
 
 /-! ### What `operator_range` may do to the range the motion produced -/
 
@@ -488,6 +497,19 @@ theorem firstWord_in_line (s : MS) (fuel i p : Nat) (h : firstWordGo s fuel i = 
       · split at h
         · exact absurd h (by simp)
         · obtain ⟨a, b⟩ := ih (i + 1) h; exact ⟨by omega, b⟩
+
+/-- `gg`/`G` as plain motions: the scan for the first non-blank stays inside its line. -/
+theorem skipBlanks_in_line (s : MS) (e f p : Nat) : p ≤ skipBlanks s e f p ∧ (p < e → skipBlanks s e f p < e) := by
+  induction f generalizing p with
+  | zero => simp [skipBlanks]
+  | succ f ih =>
+    simp only [skipBlanks]
+    split
+    · rename_i h
+      simp only [Bool.and_eq_true, decide_eq_true_eq] at h
+      obtain ⟨a, b⟩ := ih (p + 1)
+      exact ⟨by omega, fun _ => b (by omega)⟩
+    · exact ⟨Nat.le_refl _, fun h => h⟩
 
 /-- Start and end of the cursor line lie inside the text, around the cursor. -/
 theorem thisLine_bounds (s : MS) (hc : s.cur ≤ s.max) (hnl : C09.NlAlone s.gs) :
